@@ -250,6 +250,10 @@ func (t *lsmTracer) drain() {
 				return
 			}
 			t.c.Lean(fmt.Sprintf("lsm compact %d %d %d %s %s %s", v.ID, src, minSeq, numsStr(s0), numsStr(s1), numsStr(rec.Added)), "ok")
+			// differential tie of the selection logic (lean/GoLevel/Model/Pick.lean): the model's expand, run on the
+			// pinned version from the real level-L inputs with the growing step disabled (limit 0), must settle on
+			// exactly the real level-L and level-L+1 sets (for level 0: the inputs are their own overlap closure)
+			t.c.Lean(fmt.Sprintf("lsm pick %d %d 0 %s", v.ID, src, numsStr(s0)), numsStr(s0)+" "+numsStr(s1))
 			t.nCompact++
 		case "c.move":
 			src, _ := ev.args[0].(int)
@@ -259,6 +263,8 @@ func (t *lsmTracer) drain() {
 				continue
 			}
 			t.c.Lean(fmt.Sprintf("lsm move %d %d %d", v.ID, src, num), "ok")
+			// the model's newCompaction from the moved table, with the real limits, must be trivial() as well
+			t.c.Lean(fmt.Sprintf("lsm trivial %d %d %d %d %d", v.ID, src, t.r.O.GetCompactionExpandLimit(src), t.r.O.GetCompactionGPOverlaps(src), num), "yes")
 		}
 	}
 }
